@@ -69,7 +69,7 @@ theorem holds_pres (classes : List ClassSpec) (fuel : Nat) :
     intro cls pp hist i obj p w hp hwn haw t x t' hs hH
     simp only [Holds] at hH ⊢
     cases hc : classes[cls]? with
-    | none => simp [hc]
+    | none => simp
     | some c =>
       cases obj with
       | strct vals =>
@@ -106,7 +106,7 @@ theorem holds_pres (classes : List ClassSpec) (fuel : Nat) :
           have : p ++ Step.idx i :: r = (p ++ [Step.idx i]) ++ r := by simp
           rw [this, List.append_assoc]
           exact away_append (p ++ [Step.idx i]) (r ++ [Step.idx oi.2]) w haw
-      | _ => simp [hc]
+      | _ => simp
 
 /-! ### two fold lemmas: every step establishes its own fact and keeps the facts of the others -/
 
@@ -570,11 +570,11 @@ example : WF demo3Classes 3 0 [] demo3Obj := by
     intro oi hoi
     simp only [List.zipIdx_cons, List.zipIdx_nil, List.mem_cons, List.not_mem_nil, or_false] at hoi
     rcases hoi with rfl | rfl <;>
-    · simp only [WF, List.getElem?_cons_succ, List.getElem?_cons_zero]
+    · simp only [List.getElem?_cons_succ, List.getElem?_cons_zero]
       refine ⟨by decide, ?_⟩
       intro lv hlv
       simp only [List.zip_cons_cons, List.zip_nil_right, List.mem_cons, List.not_mem_nil, or_false] at hlv
-      rcases hlv with rfl | rfl | rfl <;> simp [linkWF]
+      rcases hlv with rfl | rfl | rfl <;> simp
 example : (commitObj demo3Classes 3 0 [] demo3Obj demo3Secs).toOption.isSome = true := by decide
 example : (commitObj demo3Classes 3 0 [] demo3Obj demo3Secs >>= fun s' => constructObj demo3Classes 3 0 [] s') =
     .ok (.strct [.int 8, .list [.strct [.int 0, .int 1, .int 2], .strct [.int 1, .int 3, .int 4]]]) := by rfl
